@@ -251,7 +251,7 @@ func (x *Exec) indexAddr(fr *Frame, st *State, i *ssa.IndexAddr) Value {
 	case SliceV:
 		x.safety(fr, st, "bounds", "index", "(bvult "+idx+" "+v.Len+")", i.Pos())
 		off := elemAt(v.Off, idx)
-		return Ptr{Base: v.Base, Root: x.regionOf(v).root(), Path: []Step{{Idx: off}}, Fresh: true, Own: v.Own, New: v.New}
+		return Ptr{Base: x.regionOf(v).eb(), Root: x.regionOf(v).root(), Path: []Step{{Idx: off}}, Fresh: true, Own: v.Own, New: v.New}
 	case Ptr: // pointer to array
 		x.nilCheck(fr, st, v, i.Pos())
 		at, ok := v.elemType(x).Underlying().(*types.Array)
@@ -613,7 +613,7 @@ func (x *Exec) bytesToString(st *State, s SliceV, to types.Type) Value {
 	x.em.assume(eq("(slen "+r+")", s.Len))
 	s = x.regionOf(s)
 	l := x.leaf(s.key(), 1, "(_ BitVec 8)")
-	arr := "(select " + x.heapGet(st, l) + " " + s.Base + ")"
+	arr := "(select " + x.heapGet(st, l) + " " + s.eb() + ")"
 	if s.Off == bvLit(0, 64) {
 		x.em.assume(eq("(sarr "+r+")", arr))
 	} else {
@@ -844,7 +844,7 @@ func (x *Exec) sliceOp(fr *Frame, st *State, i *ssa.Slice) Value {
 		if lo != z {
 			off = "(bvadd " + v.Off + " " + lo + ")"
 		}
-		r := SliceV{Base: v.Base, Off: off, Len: bvsub(hi, lo), Cap: bvsub(mx, lo), Elem: v.Elem, Own: v.Own, New: v.New, Region: v.Region}
+		r := SliceV{Base: v.Base, Off: off, Len: bvsub(hi, lo), Cap: bvsub(mx, lo), Elem: v.Elem, Own: v.Own, New: v.New, Region: v.Region, Owner: v.Owner}
 		return x.nameValue(r, i.Name())
 	case Ptr: // pointer to array
 		at, ok := v.elemType(x).Underlying().(*types.Array)
@@ -946,8 +946,8 @@ func (x *Exec) appendOp(fr *Frame, st *State, s, e SliceV, pos token.Pos) Value 
 	for li, lf := range leaves {
 		l := x.leaf(lf[0], 1, lf[1])
 		cur := x.heapGet(st, l)
-		olds := "(select " + cur + " " + s.Base + ")"
-		olde := "(select " + x.heapGet(st, x.leaf(eleaves[li][0], 1, eleaves[li][1])) + " " + e.Base + ")"
+		olds := "(select " + cur + " " + s.eb() + ")"
+		olde := "(select " + x.heapGet(st, x.leaf(eleaves[li][0], 1, eleaves[li][1])) + " " + e.eb() + ")"
 		var inner string
 		if e.Len == bvLit(1, 64) {
 			inner = "(store " + olds + " " + elemAt(s.Off, s.Len) + " (select " + olde + " " + elemAt(e.Off, bvLit(0, 64)) + "))"
@@ -959,14 +959,18 @@ func (x *Exec) appendOp(fr *Frame, st *State, s, e SliceV, pos token.Pos) Value 
 			x.em.assume(fmt.Sprintf("(forall ((%s (_ BitVec 64))) (! (=> (not (and (bvule (bvadd %s %s) %s) (bvult %s (bvadd %s %s)))) (= (select %s %s) (select %s %s))) :pattern ((select %s %s))))",
 				q, s.Off, s.Len, q, q, s.Off, newLen, inner, q, olds, q, inner, q))
 		}
-		st.Heap[lf[0]] = x.em.define("H.app", l.ArraySort(), "(store "+cur+" "+rb+" "+inner+")")
+		wb := rb
+		if s.Region != "" && s.Owner != "" {
+			wb = s.Owner // owned arrays are addressed by their owner
+		}
+		st.Heap[lf[0]] = x.em.define("H.app", l.ArraySort(), "(store "+cur+" "+wb+" "+inner+")")
 		saved := x.storeNew
 		x.storeNew = s.New
-		x.recordWrite(lf[0], rb, false)
+		x.recordWrite(lf[0], wb, false)
 		x.storeNew = saved
 	}
 	_ = pos
-	return SliceV{Base: rb, Off: s.Off, Len: newLen, Cap: rcap, Elem: s.Elem, Own: nil, New: s.New, Region: s.Region}
+	return SliceV{Base: rb, Off: s.Off, Len: newLen, Cap: rcap, Elem: s.Elem, Own: nil, New: s.New, Region: s.Region, Owner: s.Owner}
 }
 
 func (x *Exec) copyOp(fr *Frame, st *State, d, s SliceV) Value {
@@ -981,14 +985,14 @@ func (x *Exec) copyOp(fr *Frame, st *State, d, s SliceV) Value {
 		cur := x.heapGet(st, l)
 		inner := x.em.freshConst("copydata", l.InnerSort(0))
 		q := x.em.fresh("i")
-		oldd := "(select " + cur + " " + d.Base + ")"
-		olds := "(select " + x.heapGet(st, x.leaf(sleaves[li][0], 1, sleaves[li][1])) + " " + s.Base + ")"
+		oldd := "(select " + cur + " " + d.eb() + ")"
+		olds := "(select " + x.heapGet(st, x.leaf(sleaves[li][0], 1, sleaves[li][1])) + " " + s.eb() + ")"
 		x.em.assume(fmt.Sprintf("(forall ((%s (_ BitVec 64))) (! (=> (bvult %s %s) (= (select %s (at %s %s)) (select %s (at %s %s)))) :pattern ((select %s (at %s %s))) :pattern ((select %s (at %s %s)))))",
 			q, q, n, inner, d.Off, q, olds, s.Off, q, inner, d.Off, q, olds, s.Off, q))
 		x.em.assume(fmt.Sprintf("(forall ((%s (_ BitVec 64))) (! (=> (not (and (bvule %s %s) (bvult %s (bvadd %s %s)))) (= (select %s %s) (select %s %s))) :pattern ((select %s %s))))",
 			q, d.Off, q, q, d.Off, n, inner, q, oldd, q, inner, q))
-		st.Heap[lf[0]] = x.em.define("H.copy", l.ArraySort(), "(store "+cur+" "+d.Base+" "+inner+")")
-		x.recordWrite(lf[0], d.Base, false)
+		st.Heap[lf[0]] = x.em.define("H.copy", l.ArraySort(), "(store "+cur+" "+d.eb()+" "+inner+")")
+		x.recordWrite(lf[0], d.eb(), false)
 	}
 	return Scalar{T: n, Typ: types.Typ[types.Int]}
 }
